@@ -75,7 +75,7 @@ def probes(rng, m: ts.Model, g: gen.ProgGen) -> list[dict]:
         out.append({"op": "config_detuning_map", "dmm_id": gen.pick(rng, taken),
                     "map": {"by": "qubits", "ids": list(g.qids), "weights": [0.5] * len(g.qids)}})
     # (on a parametrized sequence config_slm_mask is deferred unvalidated: an unknown DMM id is accepted and then
-    #  breaks `declared_channels` with a KeyError - outside the statement, see DESIGN 7.6; only valid ids are probed there)
+    #  breaks `declared_channels` with a KeyError - outside the statement, see DESIGN 7.7; only valid ids are probed there)
     dm_slm = dm if not m.param else dm[:-1]
     if dm_slm:
         out.append({"op": "config_slm_mask", "qubits": [g.qids[0]], "dmm_id": gen.pick(rng, dm_slm)})
